@@ -1,4 +1,5 @@
 import Ivg.Lemmas.RendererVM
+import Ivg.Lemmas.ScaleQ
 import Ivg.Gen.Tie.RendererFields
 import Ivg.Gen.Tie.VecRasterizerFields
 import Ivg.Obligations
@@ -102,6 +103,171 @@ theorem renderer_drawops (arc : ArcFn α β) (hArc : ArcPure arc) (posInf : α) 
   cases n <;> rfl
 example : Body Ex.body := Ex.body_ok
 
+
+/-! ## (b) the same graphic with viewBox, coordinates and gradient matrices scaled — exact arithmetic
+
+Model instantiated at `ℚ` (`Ivg/Lemmas/ScaleQ.lean`); the scalar is ANY `k ≠ 0`.
+`ScaleQ.scaleCall k` multiplies the viewBox of `Reset` and every coordinate operand (absolute and relative;
+arc radii and end point, not rotation and flags) by `k`; `ScaleQ.scaleProgram k role` does so for a program and
+divides by `k` the operand of the `SetNReg` calls at the positions marked by `role` — those that write the
+entries `a, b, d, e` of a gradient's matrix (viewBox space → gradient space; `c, f` and stop offsets are not
+scaled).  `ScaleQ.Scaled k z z'`: `z'` is the state `z` re-expressed at scale `k` (see `scaled_iff`). -/
+section scaling
+open Ivg.ScaleQ Ivg.RenderHist
+variable [SqrtQ]
+
+omit [SqrtQ] in
+/-- what `Scaled k z z'` says: same rectangle, selectors, colour registers, palette, LOD, flags, paint, and
+    the same pen / sub-path start / smooth point (they live in PIXEL space); viewBox `k • vb`; scale `/ k`, bias
+    `· k`.  Nothing about the number registers (`NRegRel`, `initGradient_scaled`). -/
+theorem scaled_iff (k : ℚ) (z z' : Renderer ℚ ℚ) :
+    Scaled k z z' ↔
+      (z'.r = z.r ∧ z'.viewBox = scaleVB k z.viewBox ∧
+       z'.scaleX = z.scaleX / k ∧ z'.biasX = k * z.biasX ∧ z'.scaleY = z.scaleY / k ∧ z'.biasY = k * z.biasY ∧
+       z'.palette = z.palette ∧ z'.lod0 = z.lod0 ∧ z'.lod1 = z.lod1 ∧ z'.cSel = z.cSel ∧ z'.nSel = z.nSel ∧
+       z'.disabled = z.disabled ∧ z'.prevSmoothType = z.prevSmoothType ∧ z'.prevSmoothX = z.prevSmoothX ∧
+       z'.prevSmoothY = z.prevSmoothY ∧ z'.fill = z.fill ∧ z'.cReg = z.cReg ∧
+       z'.penX = z.penX ∧ z'.penY = z.penY ∧ z'.firstX = z.firstX ∧ z'.firstY = z.firstY) :=
+  ScaleQ.scaled_iff k z z'
+
+omit [SqrtQ] in
+/-- the relation between the transforms is the one `recalcTransform` produces: if `z` has the recalculated
+    transform of its rectangle and viewBox (`RenderHist.TransformOK`, an invariant of the Renderer's life,
+    `C05.transform_invariant`), so has its re-expression for the scaled viewBox. -/
+theorem scaled_transformOK (k : ℚ) (z : Renderer ℚ ℚ) (n' : Regs ℚ) (h : TransformOK z) :
+    TransformOK (sc k z n') := sc_transformOK k z n' h
+
+/-- "gradient matrices scaled" (`initGradient_scaled`): in related states, if the stop offsets of the gradient
+    value `rgba` agree and its six matrix registers satisfy `a' = a/k, b' = b/k, c' = c, d' = d/k, e' = e/k,
+    f' = f`, then `initGradient` returns the SAME result — same validity verdict, same stops, same
+    pixel-space matrix. -/
+theorem initGradient_scaled {k : ℚ} (hk : k ≠ 0) (z z' : Renderer ℚ ℚ) (h : Scaled k z z') (rgba : RGBA)
+    (hstops : ∀ j, j < (decodeGradient rgba).nStops.toNat →
+      z'.nReg.get6 ((decodeGradient rgba).nBase + (0 + UInt8.ofNat j)) =
+        z.nReg.get6 ((decodeGradient rgba).nBase + (0 + UInt8.ofNat j)))
+    (ha : z'.nReg.get6 ((decodeGradient rgba).nBase - 6) = z.nReg.get6 ((decodeGradient rgba).nBase - 6) / k)
+    (hb : z'.nReg.get6 ((decodeGradient rgba).nBase - 5) = z.nReg.get6 ((decodeGradient rgba).nBase - 5) / k)
+    (hc : z'.nReg.get6 ((decodeGradient rgba).nBase - 4) = z.nReg.get6 ((decodeGradient rgba).nBase - 4))
+    (hd : z'.nReg.get6 ((decodeGradient rgba).nBase - 3) = z.nReg.get6 ((decodeGradient rgba).nBase - 3) / k)
+    (he : z'.nReg.get6 ((decodeGradient rgba).nBase - 2) = z.nReg.get6 ((decodeGradient rgba).nBase - 2) / k)
+    (hf : z'.nReg.get6 ((decodeGradient rgba).nBase - 1) = z.nReg.get6 ((decodeGradient rgba).nBase - 1)) :
+    z'.initGradient rgba = z.initGradient rgba :=
+  ScaleQ.initGradient_scaled' hk z z' h rgba hstops ha hb hc hd he hf
+
+/-- One call (`step_scaled`): for every call other than `SetNReg` — the styling calls, `StartPath`,
+    `ClosePathEndPath`, the sixteen line/curve verbs absolute and relative, and arcs for an arc function that
+    is covariant under the re-expression (`ArcScale`) — related states make the same rasteriser calls for
+    `c` and `scaleCall k c`, and stay related.  For a `StartPath` that selects a gradient value the agreement
+    of `initGradient` is a hypothesis (discharged by `initGradient_scaled`). -/
+theorem step_scaled {k : ℚ} (hk : k ≠ 0) (arc : ArcFn ℚ ℚ) (hArc : ArcScale arc k) (posInf : ℚ)
+    (z z' : Renderer ℚ ℚ) (h : Scaled k z z') (c : Call ℚ) (hn : isSetNReg c = false)
+    (hg : ∀ adj x y, c = .startPath adj x y →
+      (z.cReg.get6 (z.cSel - adj)).validPremul = false → (z.cReg.get6 (z.cSel - adj)).validGradient = true →
+      z'.initGradient (z.cReg.get6 (z.cSel - adj)) = z.initGradient (z.cReg.get6 (z.cSel - adj))) :
+    (z'.step arc posInf (scaleCall k c)).2 = (z.step arc posInf c).2 ∧
+    Scaled k (z.step arc posInf c).1 (z'.step arc posInf (scaleCall k c)).1 :=
+  ScaleQ.step_scaled hk arc hArc posInf z z' h c hn hg
+example : isSetNReg (.d4 .s 1 2 3 4 : Call ℚ) = false ∧ (4 : ℚ) ≠ 0 := ⟨rfl, by norm_num⟩
+/-- an exactly covariant arc function (the chord to the end point) -/
+example : ArcScale ScaleQ.Ex.chordArc 4 := ScaleQ.Ex.chordArc_scale (by norm_num)
+
+/-- … unconditional when the path is painted with a flat colour (or not at all). -/
+theorem step_scaled_flat {k : ℚ} (hk : k ≠ 0) (arc : ArcFn ℚ ℚ) (hArc : ArcScale arc k) (posInf : ℚ)
+    (z z' : Renderer ℚ ℚ) (h : Scaled k z z') (c : Call ℚ) (hn : isSetNReg c = false)
+    (hflat : ∀ adj x y, c = .startPath adj x y →
+      (z.cReg.get6 (z.cSel - adj)).validPremul = true ∨ (z.cReg.get6 (z.cSel - adj)).validGradient = false) :
+    (z'.step arc posInf (scaleCall k c)).2 = (z.step arc posInf c).2 ∧
+    Scaled k (z.step arc posInf c).1 (z'.step arc posInf (scaleCall k c)).1 :=
+  ScaleQ.step_scaled_flat hk arc hArc posInf z z' h c hn hflat
+
+/-- … and `SetNReg` with any two operands keeps the states related. -/
+theorem step_scaled_setNReg (k : ℚ) (arc : ArcFn ℚ ℚ) (posInf : ℚ) (z z' : Renderer ℚ ℚ) (h : Scaled k z z')
+    (adj : UInt8) (incr : Bool) (f f' : ℚ) :
+    (z'.step arc posInf (.setNReg adj incr f')).2 = (z.step arc posInf (.setNReg adj incr f)).2 ∧
+    Scaled k (z.step arc posInf (.setNReg adj incr f)).1 (z'.step arc posInf (.setNReg adj incr f')).1 :=
+  ScaleQ.step_scaled_setNReg k arc posInf z z' h adj incr f f'
+
+/-- Programs (`run_scaled`): from related states whose number registers are related by the marking `mk`
+    (`NRegRel`: marked registers `/ k`, unmarked equal), if along the run of `p` every `StartPath` that selects a
+    gradient value finds the registers of `a, b, d, e` last written by marked `SetNReg` calls and those of
+    `c, f` and the stop offsets by unmarked ones (`rolesOK`, a Boolean evaluated on the ORIGINAL program), the
+    scaled program makes exactly the rasteriser calls of `p` and the final states are related. -/
+theorem run_scaled {k : ℚ} (hk : k ≠ 0) (arc : ArcFn ℚ ℚ) (hArc : ArcScale arc k) (posInf : ℚ) (role : Nat → Bool)
+    (p : List (Call ℚ)) (i : Nat) (mk : Nat → Bool) (z z' : Renderer ℚ ℚ) (h : Scaled k z z')
+    (hrel : NRegRel k mk z.nReg z'.nReg) (hok : rolesOK arc posInf role i mk z p = true) :
+    (z'.run arc posInf (scaleFrom k role i p)).2 = (z.run arc posInf p).2 ∧
+    Scaled k (z.run arc posInf p).1 (z'.run arc posInf (scaleFrom k role i p)).1 :=
+  ScaleQ.run_scaled' hk arc hArc posInf role p i mk z z' h hrel hok
+
+/-- **Clause (b), exact arithmetic (`pow2_scaling_exact`).**  For EVERY `k > 0` (in particular every power of
+    two, `pow2_scaling_exact_pow2`): a whole graphic `Reset vb pal :: body`, delivered to a Renderer in any
+    state `z0` (any rectangle, any earlier history), and the same graphic expressed with the viewBox, all
+    coordinates and the gradient matrices scaled by `k`, make EXACTLY the same rasteriser calls — the same
+    `Reset(w, h)`, the same path coordinates in pixel space, the same `Draw`s with the same paints (flat
+    colours, and gradients with the same stops and the same pixel-space matrix).
+
+    Covered: all styling and drawing calls, relative and absolute, smooth curves, close-and-move, LOD, disabled
+    paths, invalid gradients; arcs UNDER the hypothesis `ArcScale arc k` (exact covariance of the arc function).
+    Hypothesis `rolesOK`: `role` marks the right `SetNReg` calls (it holds for every `role` when no path
+    selects a gradient value, `pow2_scaling_exact_flat`).
+
+    NOT covered: this is the model evaluated in EXACT arithmetic.  It shows that the re-expression is the
+    identity on the rasteriser's input as a matter of algebra.  That the float32/float64 evaluation
+    (`scaleX = dx / (k·W)`, `scaleX · (k·x + k·bias)`, `a/k · (1 / (scaleX/k))`, …) commutes with scaling by a
+    power of two — true for IEEE arithmetic absent overflow, underflow and subnormals — is NOT proved here, nor
+    that `arcF32` (float64 trigonometry) is covariant beyond rounding; the differential harness compares the
+    real pixels for these. -/
+theorem pow2_scaling_exact {k : ℚ} (hk : 0 < k) (arc : ArcFn ℚ ℚ) (hArc : ArcScale arc k) (posInf : ℚ)
+    (role : Nat → Bool) (z0 : Renderer ℚ ℚ) (vb : ViewBox ℚ) (pal : Palette) (body : List (Call ℚ))
+    (mk0 : Nat → Bool) (hroles : rolesOK arc posInf role 0 mk0 z0 (.reset vb pal :: body) = true) :
+    (z0.run arc posInf (scaleProgram k role (.reset vb pal :: body))).2 =
+      (z0.run arc posInf (.reset vb pal :: body)).2 :=
+  ScaleQ.program_scaled (ne_of_gt hk) arc hArc posInf role z0 vb pal body mk0 hroles
+/-- … for the powers of two `2^n`, `n` any integer (scaling up or down). -/
+theorem pow2_scaling_exact_pow2 (n : ℤ) (arc : ArcFn ℚ ℚ) (hArc : ArcScale arc ((2 : ℚ) ^ n)) (posInf : ℚ)
+    (role : Nat → Bool) (z0 : Renderer ℚ ℚ) (vb : ViewBox ℚ) (pal : Palette) (body : List (Call ℚ))
+    (mk0 : Nat → Bool) (hroles : rolesOK arc posInf role 0 mk0 z0 (.reset vb pal :: body) = true) :
+    (z0.run arc posInf (scaleProgram ((2 : ℚ) ^ n) role (.reset vb pal :: body))).2 =
+      (z0.run arc posInf (.reset vb pal :: body)).2 :=
+  ScaleQ.program_scaled (zpow_ne_zero n (by norm_num)) arc hArc posInf role z0 vb pal body mk0 hroles
+
+/-- … and with no hypothesis on `role` for graphics whose paths all select flat colours. -/
+theorem pow2_scaling_exact_flat {k : ℚ} (hk : 0 < k) (arc : ArcFn ℚ ℚ) (hArc : ArcScale arc k) (posInf : ℚ)
+    (role : Nat → Bool) (z0 : Renderer ℚ ℚ) (vb : ViewBox ℚ) (pal : Palette) (body : List (Call ℚ))
+    (hflat : ∀ (pre : List (Call ℚ)) (adj : UInt8) (x y : ℚ) (post : List (Call ℚ)),
+      Call.reset vb pal :: body = pre ++ .startPath adj x y :: post →
+        ((z0.run arc posInf pre).1.cReg.get6 ((z0.run arc posInf pre).1.cSel - adj)).validPremul = true ∨
+        ((z0.run arc posInf pre).1.cReg.get6 ((z0.run arc posInf pre).1.cSel - adj)).validGradient = false) :
+    (z0.run arc posInf (scaleProgram k role (.reset vb pal :: body))).2 =
+      (z0.run arc posInf (.reset vb pal :: body)).2 :=
+  ScaleQ.program_scaled_flat (ne_of_gt hk) arc hArc posInf role z0 vb pal body hflat
+
+end scaling
+
+section scaling_examples
+open Ivg.ScaleQ
+-- non-vacuity, k = 4: a graphic with a flat path (relative line, relative quadratic and cubic, smooth
+-- quadratic) and a path painted with a two-stop linear gradient (relative arc, close-and-move, H, v); `role`
+-- marks the four `SetNReg` calls that write a, b, d, e; both paths are drawn, the second with a gradient
+example : (0 : ℚ) < 4 ∧ ArcScale ScaleQ.Ex.chordArc 4 ∧
+    rolesOK ScaleQ.Ex.chordArc 1000 ScaleQ.Ex.role 0 (fun _ => false)
+      ((Renderer.zero : Renderer ℚ ℚ).setRasterizer ⟨0, 0, 48, 24⟩) ScaleQ.Ex.prog = true :=
+  ⟨by norm_num, ScaleQ.Ex.chordArc_scale (by norm_num), ScaleQ.Ex.prog_rolesOK⟩
+example : (drawsOf (((Renderer.zero : Renderer ℚ ℚ).setRasterizer ⟨0, 0, 48, 24⟩).run ScaleQ.Ex.chordArc 1000
+    ScaleQ.Ex.prog).2).map (fun d => match d.2 with | .gradient _ => true | .flat _ => false) = [false, true] :=
+  ScaleQ.Ex.prog_draws
+-- what the scaled graphic looks like: viewBox and coordinates ×4, matrix entries a, b, d, e ÷4, c, f and the
+-- stop offsets untouched, arc radii and end point ×4 but not its rotation
+example : ((scaleProgram 4 ScaleQ.Ex.role ScaleQ.Ex.prog).drop 11).take 8 =
+      [.setNReg 0 true (1 / 256), .setNReg 0 true 0, .setNReg 0 true (1 / 2),
+       .setNReg 0 true 0, .setNReg 0 true (1 / 256), .setNReg 0 true (1 / 2),
+       .setNReg 0 true 0, .setNReg 0 true 1] ∧
+    (scaleProgram 4 ScaleQ.Ex.role ScaleQ.Ex.prog).take 3 =
+      [.reset ⟨-128, -128, 128, 128⟩ defaultPalette, .startPath 0 (-64) 32, .d2 .l 12 16] ∧
+    ((scaleProgram 4 ScaleQ.Ex.role ScaleQ.Ex.prog).drop 22).take 2 =
+      [.d1 .H 20, .arc true 12 8 30 true false 16 16] := ScaleQ.Ex.prog_scaled_shape
+end scaling_examples
+
 /-!
 ## Not proved here
 
@@ -111,7 +277,15 @@ example : Body Ex.body := Ex.body_ok
   `r.Min` with `sp = (0,0)`) — for gradient paints note that `Gradient.At` is evaluated in the
   rasteriser's coordinates relative to `r.Min`, which the model's `Draw (r, paint)` with `sp = (0,0)`
   records but does not interpret.
-* Clause (b) / power-of-two scaling (`pow2_scaling`) is handled elsewhere.
+* Clause (b), power-of-two scaling: proved above for the model at EXACT arithmetic (`pow2_scaling_exact`, any
+  `k > 0`): the scaled graphic makes the same rasteriser calls.  NOT proved: that float32/float64 evaluation
+  commutes with multiplication by a power of two (it does for IEEE arithmetic absent overflow, underflow and
+  subnormal results; e.g. `scaleX = dx / (k·W)` and `a/k · (1/(scaleX/k))` are then exact rescalings) — no
+  theorem about the (F32, F64) instance is given for clause (b), the differential harness compares pixels; that
+  `arcF32` satisfies `ArcScale` (it can only up to rounding of its float64 trigonometry); and the choice of
+  `role` is an input — a `SetNReg` operand's role is not visible at the call level, so a graphic that uses one
+  register write both as a matrix entry `a, b, d, e` and as a stop offset or `c, f` has no scaled form
+  (`rolesOK` is then false).
 * `NewRasterizer` (which calls the inner `Reset`) and the `Dst` field are not modelled: neither touches
   the outer `DrawOp` (`Gen.Tie.vecRasterizer_fields_tie` pins the field list).
 -/
@@ -122,5 +296,9 @@ end Ivg.Props.C16
   Ivg.Props.C16.origin_independent, Ivg.Props.C16.origin_independent_step,
   Ivg.Props.C16.colour_indirection, Ivg.Props.C16.colour_indirection_program,
   Ivg.Props.C16.drawop_first_only, Ivg.Props.C16.renderer_drawops,
+  Ivg.Props.C16.scaled_iff, Ivg.Props.C16.scaled_transformOK, Ivg.Props.C16.initGradient_scaled,
+  Ivg.Props.C16.step_scaled, Ivg.Props.C16.step_scaled_flat, Ivg.Props.C16.step_scaled_setNReg,
+  Ivg.Props.C16.run_scaled, Ivg.Props.C16.pow2_scaling_exact, Ivg.Props.C16.pow2_scaling_exact_pow2,
+  Ivg.Props.C16.pow2_scaling_exact_flat,
   Ivg.Lemmas.RendererVM.arcF32_rectIndep, Ivg.Lemmas.RendererVM.arcF32_pure,
   Ivg.Gen.Tie.vecRasterizer_fields_tie, Ivg.Gen.Tie.renderer_fields_tie]
